@@ -21,6 +21,7 @@ EXPLANATION = (
     "number (no square root / logarithm outside its domain, no vanishing denominator). M1: is_monotonic() is True iff the class "
     "overrides tsukamoto(); D3: every parameter membership() reads is read by tsukamoto(); elementwise safety of the inverse kernels; operators only after "
     "scalar() coercion (V8)"
+    "; the tsukamoto kernels read only the parameters (K1) and return the shape of their argument row by row (V9)"
 )
 ASSUMPTIONS = [
     "real arithmetic (rounding not modelled); y strictly between 0 and height; parameters finite, start != end (SShape/ZShape: start < end)",
@@ -28,11 +29,14 @@ ASSUMPTIONS = [
 ]
 LEVEL_SCOPE = ("Decides the listed clauses for every order type (piece) over real arithmetic, reporting only definite disagreements; floating-point "
                "rounding and the clauses listed as undecided are not decided.")
-FLOORS = {"M1": 26, "D3": 12, "V1": 6, "I1": 6, "I2": 6, "V8": 6}
+FLOORS = {"V9": 100, "K1": 6, "M1": 26, "D3": 12, "V1": 6, "I1": 6, "I2": 6, "V8": 6}
 
 
 def run(check: Check) -> None:
     p = check.program
+    from .c02 import shapes
+
+    shapes(check, only_kernels_of=("Term",))  # V9: membership and tsukamoto return the broadcast shape of their operands, row by row
     c03.monotonic_table(check)
     base = p.cls("Term")
     mono = [c for c in p.subclasses("Term") if (c.lookup("tsukamoto") is not None and c.lookup("tsukamoto").cls is not base)]
@@ -56,7 +60,11 @@ def run(check: Check) -> None:
         check.require(dep, "D3", f"{c.name}.tsukamoto/argument", "the Tsukamoto value depends on the activation degree" if dep else
                       "the Tsukamoto value does not depend on its argument", loc(ts))
         c02.kernel_elementwise(check, ts, "V1", f"{c.name}.tsukamoto")
-        from .common import coerce_first
+        from .common import coerce_first, kernel_purity
+
+        # K1: the inverse is a function of its argument and of the same parameters membership() reads at the time of the call - not of something
+        # derived from them at construction time (stale once a parameter is re-assigned)
+        kernel_purity(check, ts, "K1", f"{c.name}.tsukamoto/pure", set(c03.shape_params(c)) | {"height", "name"})
 
         coerce_first(check, ts, "V8", f"{c.name}.tsukamoto/coerce-first")
     inverse_identity(check)
